@@ -1,7 +1,750 @@
-//! C02 — not implemented yet.
-use vcore::Ctx;
+//! C02 — all simulator engines produce identical traces.
+//!
+//! Case: a generated design (`vdesign::gen_design`: child modules with
+//! parameter overrides, `let` / `assign` / `always_comb` with if / case /
+//! switch / for, `always_ff` with reset, functions, structs, arrays, wide and
+//! signed values; `$display` in `always_ff` on a quarter of the designs) and a
+//! stimulus (reset window, then corner-biased input vectors, a reset in
+//! mid-run now and then).
+//!
+//! Oracle (differential, as the property states it): every 2-state entry of
+//! `Config::all()` (interpreter, JIT, each ± `disable_ff_opt`; the two `cc`
+//! variants on a fifth of the designs, each needs a C compiler run) must give
+//! the same value of every output port after every step and the same
+//! `$display` text.  A 4-state engine is compared with them when its run
+//! showed no X/Z on *any* variable of the hierarchy (DESIGN.md C02: stricter
+//! than "observed signal", avoids the `!x` false alarm); 4-state runs that did
+//! show X are compared among the 4-state engines only (values and X masks).
+//!
+//! Third opinion: the `vdesign` reference evaluator.  It is not part of the
+//! verdict, but it names the engines that are wrong in the report, and — by
+//! comparing every internal variable (`Simulator::get_var`) of a deviating
+//! engine with the reference in dependency order — the first item that
+//! computes a wrong value, whose expressions give the root-cause signature
+//! (`vdesign::findings`).
 
-pub fn run(_ctx: &Ctx) {
-    println!("INCONCLUSIVE property=C02: check not implemented");
-    std::process::exit(2);
+use std::collections::{BTreeMap, BTreeSet};
+use vcore::{CaseCfg, Ctx, Draw, Outcome, hash_str, json};
+use vdesign::findings;
+use vdesign::*;
+use veryl_simulator::Config;
+
+fn run_engine(a: &Analyzed, c: &Config, stim: &Stimulus) -> Result<Trace, String> {
+    match std::panic::catch_unwind(std::panic::AssertUnwindSafe(|| a.run("Top", c, stim))) {
+        Ok(r) => r,
+        Err(e) => {
+            let msg = if let Some(s) = e.downcast_ref::<&str>() {
+                s.to_string()
+            } else if let Some(s) = e.downcast_ref::<String>() {
+                s.clone()
+            } else {
+                "panic".into()
+            };
+            Err(format!("panic: {msg}"))
+        }
+    }
+}
+
+fn family(label: &str) -> String {
+    let base = label.split('+').next().unwrap_or(label).to_string();
+    if label.contains("4st") { format!("{base}4") } else { base }
+}
+
+/// first (step, output) where two traces differ in value or X mask
+fn first_diff(a: &Trace, b: &Trace) -> Option<(usize, usize)> {
+    for (si, (ra, rb)) in a.steps.iter().zip(&b.steps).enumerate() {
+        for (oi, (x, y)) in ra.iter().zip(rb).enumerate() {
+            if x != y {
+                return Some((si, oi));
+            }
+        }
+    }
+    None
+}
+
+/// all (expression, target width) pairs of an item, for classification
+fn item_exprs<'a>(m: &'a Module, it: &'a Item, out: &mut Vec<(&'a Expr, u32)>) {
+    fn stmts<'a>(m: &'a Module, ss: &'a [Stmt], out: &mut Vec<(&'a Expr, u32)>) {
+        for s in ss {
+            match s {
+                Stmt::Assign { lhs, rhs, .. } => out.push((rhs, eval::ref_ty(m, lhs).w)),
+                Stmt::AssignConcat { lhs, rhs } => out.push((rhs, lhs.iter().map(|r| eval::ref_ty(m, r).w).sum())),
+                Stmt::If { cond, then, els } => {
+                    out.push((cond, 1));
+                    stmts(m, then, out);
+                    stmts(m, els, out);
+                }
+                Stmt::Case { sel, arms, default } => {
+                    out.push((sel, 1));
+                    for (_, b) in arms {
+                        stmts(m, b, out);
+                    }
+                    if let Some(d) = default {
+                        stmts(m, d, out);
+                    }
+                }
+                Stmt::Switch { arms, default } => {
+                    for (cs, b) in arms {
+                        for c in cs {
+                            out.push((c, 1));
+                        }
+                        stmts(m, b, out);
+                    }
+                    if let Some(d) = default {
+                        stmts(m, d, out);
+                    }
+                }
+                Stmt::For { body, break_if, .. } => {
+                    if let Some(b) = break_if {
+                        out.push((b, 1));
+                    }
+                    stmts(m, body, out);
+                }
+                Stmt::Display { args, .. } => {
+                    for a in args {
+                        out.push((a, 1));
+                    }
+                }
+                Stmt::Return(e) => out.push((e, 1)),
+            }
+        }
+    }
+    match it {
+        Item::Assign { lhs, rhs } => out.push((rhs, eval::ref_ty(m, lhs).w)),
+        Item::Let { decl, rhs } => out.push((rhs, m.decls[*decl].ty.w)),
+        Item::AlwaysComb(b) => stmts(m, b, out),
+        Item::AlwaysFf { reset, body, .. } => {
+            stmts(m, reset, out);
+            stmts(m, body, out);
+        }
+        Item::Inst { conns, .. } => {
+            for (_, c) in conns {
+                if let Conn::In(e) = c {
+                    out.push((e, 1));
+                }
+            }
+        }
+    }
+}
+
+fn stmt_kinds(ss: &[Stmt], out: &mut BTreeSet<&'static str>) {
+    for s in ss {
+        match s {
+            Stmt::Assign { lhs, op, .. } => {
+                if !matches!(lhs.sel, Sel::None) {
+                    out.insert("partial");
+                }
+                if lhs.idx.is_some() {
+                    out.insert("array");
+                }
+                if lhs.field.is_some() {
+                    out.insert("field");
+                }
+                if !matches!(op, AssignOp::Set) {
+                    out.insert("opassign");
+                }
+            }
+            Stmt::AssignConcat { .. } => {
+                out.insert("lhsconcat");
+            }
+            Stmt::If { then, els, .. } => {
+                out.insert("if");
+                stmt_kinds(then, out);
+                stmt_kinds(els, out);
+            }
+            Stmt::Case { arms, default, .. } => {
+                out.insert("case");
+                for (_, b) in arms {
+                    stmt_kinds(b, out);
+                }
+                if let Some(d) = default {
+                    stmt_kinds(d, out);
+                }
+            }
+            Stmt::Switch { arms, default } => {
+                out.insert("switch");
+                for (_, b) in arms {
+                    stmt_kinds(b, out);
+                }
+                if let Some(d) = default {
+                    stmt_kinds(d, out);
+                }
+            }
+            Stmt::For { body, break_if, .. } => {
+                out.insert("for");
+                if break_if.is_some() {
+                    out.insert("break");
+                }
+                stmt_kinds(body, out);
+            }
+            Stmt::Display { .. } => {
+                out.insert("display");
+            }
+            Stmt::Return(_) => {}
+        }
+    }
+}
+
+/// root-cause class of an item that computes a wrong value
+fn classify_item(design: &Design, module: usize, item: usize) -> String {
+    let m = &design.modules[module];
+    let it = &m.items[item];
+    let mut exprs = vec![];
+    item_exprs(m, it, &mut exprs);
+    // functions called from the item
+    for f in &m.funcs {
+        let mut fe = vec![];
+        for s in &f.body {
+            if let Stmt::Assign { lhs, rhs, .. } = s {
+                fe.push((rhs, eval::ref_ty(m, lhs).w));
+            }
+            if let Stmt::Return(e) = s {
+                fe.push((e, f.ret.w));
+            }
+        }
+        let _ = fe;
+    }
+    for (e, w) in &exprs {
+        if let Some(k) = findings::hits(m, e, *w).first() {
+            return k.to_string();
+        }
+    }
+    // statement-level findings
+    {
+        fn walk_stmts<'a>(ss: &'a [Stmt], out: &mut Vec<&'a Stmt>) {
+            for s in ss {
+                out.push(s);
+                match s {
+                    Stmt::If { then, els, .. } => {
+                        walk_stmts(then, out);
+                        walk_stmts(els, out);
+                    }
+                    Stmt::Case { arms, default, .. } => {
+                        for (_, b) in arms {
+                            walk_stmts(b, out);
+                        }
+                        if let Some(d) = default {
+                            walk_stmts(d, out);
+                        }
+                    }
+                    Stmt::Switch { arms, default } => {
+                        for (_, b) in arms {
+                            walk_stmts(b, out);
+                        }
+                        if let Some(d) = default {
+                            walk_stmts(d, out);
+                        }
+                    }
+                    Stmt::For { body, .. } => walk_stmts(body, out),
+                    _ => {}
+                }
+            }
+        }
+        let mut all: Vec<&Stmt> = vec![];
+        let tmp;
+        match it {
+            Item::Assign { lhs, rhs } => {
+                tmp = [Stmt::Assign {
+                    lhs: lhs.clone(),
+                    op: AssignOp::Set,
+                    rhs: rhs.clone(),
+                }];
+                walk_stmts(&tmp, &mut all);
+            }
+            Item::AlwaysComb(b) => walk_stmts(b, &mut all),
+            Item::AlwaysFf { reset, body, .. } => {
+                walk_stmts(reset, &mut all);
+                walk_stmts(body, &mut all);
+            }
+            _ => {}
+        }
+        for s in all {
+            if let Some(k) = findings::stmt_hits(m, s).first() {
+                return k.to_string();
+            }
+        }
+    }
+    let mut kinds = BTreeSet::new();
+    let kind = match it {
+        Item::Assign { lhs, .. } => {
+            if !matches!(lhs.sel, Sel::None) {
+                kinds.insert("partial");
+            }
+            if lhs.field.is_some() {
+                kinds.insert("field");
+            }
+            if lhs.idx.is_some() {
+                kinds.insert("array");
+            }
+            "assign"
+        }
+        Item::Let { .. } => "let",
+        Item::AlwaysComb(b) => {
+            stmt_kinds(b, &mut kinds);
+            "always_comb"
+        }
+        Item::AlwaysFf { reset, body, .. } => {
+            stmt_kinds(reset, &mut kinds);
+            stmt_kinds(body, &mut kinds);
+            "always_ff"
+        }
+        Item::Inst { .. } => "inst",
+    };
+    let uses_call = exprs.iter().any(|(e, _)| {
+        let mut found = false;
+        findings::walk(m, e, 1, &mut |_, n| {
+            if matches!(n.e, Expr::Call(..)) {
+                found = true;
+            }
+        });
+        found
+    });
+    if uses_call {
+        kinds.insert("call");
+    }
+    format!("unclassified:{kind}[{}]", kinds.into_iter().collect::<Vec<_>>().join(","))
+}
+
+fn stim_json(stim: &Stimulus) -> serde_json::Value {
+    json!({
+        "clock": stim.clock, "reset": stim.reset,
+        "inputs": stim.inputs.iter().map(|p| json!({"name": p.name, "width": p.width})).collect::<Vec<_>>(),
+        "outputs": stim.outputs.iter().map(|p| json!({"name": p.name, "width": p.width})).collect::<Vec<_>>(),
+        "steps": stim.steps.iter().map(|s| json!({
+            "reset": s.reset,
+            "values": s.values.iter().map(|v| format!("{v:x}")).collect::<Vec<_>>()
+        })).collect::<Vec<_>>()
+    })
+}
+
+fn stim_from(v: &vcore::Value) -> Stimulus {
+    let ports = |x: &vcore::Value| -> Vec<PortSpec> {
+        x.as_array()
+            .map(|a| {
+                a.iter()
+                    .map(|p| PortSpec {
+                        name: p["name"].as_str().unwrap_or("").to_string(),
+                        width: p["width"].as_u64().unwrap_or(1) as usize,
+                    })
+                    .collect()
+            })
+            .unwrap_or_default()
+    };
+    Stimulus {
+        clock: v["clock"].as_str().map(|s| s.to_string()),
+        reset: v["reset"].as_str().map(|s| s.to_string()),
+        inputs: ports(&v["inputs"]),
+        outputs: ports(&v["outputs"]),
+        steps: v["steps"]
+            .as_array()
+            .map(|a| {
+                a.iter()
+                    .map(|s| StimStep {
+                        reset: s["reset"].as_bool().unwrap_or(false),
+                        values: s["values"]
+                            .as_array()
+                            .map(|r| r.iter().map(|x| x.as_str().and_then(|t| num_bigint::BigUint::parse_bytes(t.as_bytes(), 16)).unwrap_or_default()).collect())
+                            .unwrap_or_default(),
+                    })
+                    .collect()
+            })
+            .unwrap_or_default(),
+    }
+}
+
+/// Replay of a recorded reproducer: text + stimulus (+ the reference's
+/// values and the root-cause class found when it was recorded).
+pub fn replay_recorded(p: &vcore::Value, fast: &[Config], cc: &[Config]) -> Outcome {
+    let text = p["veryl"].as_str().unwrap_or("");
+    let stim = stim_from(&p["stimulus"]);
+    let root = p["root"].as_str().unwrap_or("recorded").to_string();
+    let expected: Vec<Vec<Option<num_bigint::BigUint>>> = p["expected"]
+        .as_array()
+        .map(|a| {
+            a.iter()
+                .map(|row| row.as_array().map(|r| r.iter().map(|x| x.as_str().and_then(|t| num_bigint::BigUint::parse_bytes(t.as_bytes(), 16))).collect()).unwrap_or_default())
+                .collect()
+        })
+        .unwrap_or_default();
+    let a = match Analyzed::new(text) {
+        Ok(a) => a,
+        Err(r) => return Outcome::skip(format!("recorded text rejected by the analyzer ({r})")),
+    };
+    let configs: Vec<Config> = fast.iter().chain(cc.iter()).cloned().collect();
+    let runs: Vec<(String, bool, Result<Trace, String>)> = configs.iter().map(|c| (config_label(c), c.use_4state, run_engine(&a, c, &stim))).collect();
+    let errs: Vec<(&String, &String)> = runs.iter().filter_map(|(l, _, r)| r.as_ref().err().map(|e| (l, e))).collect();
+    if !errs.is_empty() && errs.len() < runs.len() || errs.iter().any(|(_, e)| e.starts_with("panic")) {
+        let mut fams: BTreeSet<String> = BTreeSet::new();
+        for (l, _) in &errs {
+            fams.insert(family(l));
+        }
+        let first: String = errs[0].1.lines().next().unwrap_or("").chars().filter(|c| !c.is_ascii_digit()).take(70).collect();
+        return Outcome::fail(format!("engine-error:{first}/{}", fams.into_iter().collect::<Vec<_>>().join("+")), format!("some engines cannot run the recorded design\n{text}"), p.clone());
+    }
+    if !errs.is_empty() {
+        return Outcome::skip("recorded design is not simulatable by any engine");
+    }
+    // deviants against the first 2-state engine; 4-state runs with X among themselves
+    let mut deviants: BTreeSet<String> = BTreeSet::new();
+    let (bl, _, bt) = &runs[0];
+    let bt = bt.as_ref().unwrap();
+    let mut xbase: Option<&Trace> = None;
+    for (label, four, r) in &runs {
+        let t = r.as_ref().unwrap();
+        if label == bl {
+            continue;
+        }
+        if *four && t.any_xz {
+            match xbase {
+                None => xbase = Some(t),
+                Some(x) => {
+                    if first_diff(x, t).is_some() || x.display != t.display {
+                        deviants.insert(label.clone());
+                    }
+                }
+            }
+            continue;
+        }
+        if first_diff(bt, t).is_some() || bt.display != t.display {
+            deviants.insert(label.clone());
+        }
+    }
+    if deviants.is_empty() {
+        return Outcome::pass(hash_str(text), true, vec!["recorded".into()], text.to_string());
+    }
+    // the engines that are wrong by the recorded reference values
+    let mut wrong: BTreeSet<String> = BTreeSet::new();
+    for (label, four, r) in &runs {
+        let t = r.as_ref().unwrap();
+        if *four && t.any_xz {
+            continue;
+        }
+        'o: for (row, erow) in t.steps.iter().zip(&expected) {
+            for (s, e) in row.iter().zip(erow) {
+                if let Some(e) = e {
+                    if s.value != *e {
+                        wrong.insert(label.clone());
+                        break 'o;
+                    }
+                }
+            }
+        }
+    }
+    if wrong.is_empty() {
+        wrong = deviants.clone();
+    }
+    let fams: BTreeSet<String> = wrong.iter().map(|l| family(l)).collect();
+    Outcome::fail(
+        format!("{root}/{}", fams.into_iter().collect::<Vec<_>>().join("+")),
+        format!("engines disagree on the recorded design (deviating from {bl}: {deviants:?})\n{text}"),
+        p.clone(),
+    )
+}
+
+pub fn one_case(d: &mut Draw, fast: &[Config], cc: &[Config]) -> Outcome {
+    let mut cfg = GenCfg::default();
+    cfg.display = d.chance(1, 4);
+    cfg.unguarded_per_mille = 20;
+    let g = gen_design(d, &cfg);
+    let cycles = 8 + d.below(8) as usize;
+    let stim = gen_stimulus(d, &g.design, cycles);
+    let use_cc = !cc.is_empty() && d.chance(1, 5);
+    if std::env::var("C02_DUMP").is_ok() {
+        println!("{}// stimulus: {}", print_design(&g.design), stim_json(&stim));
+    }
+    let out = evaluate(&g, &stim, fast, cc, use_cc);
+    // development aid: structural minimisation of a failing design
+    if let (Outcome::Fail(f), Ok(_)) = (&out, std::env::var("VDESIGN_MINIMIZE")) {
+        let sig = f.signature.clone();
+        let mut pred = |dsg: &Design, st: &Stimulus| {
+            let g2 = Generated {
+                design: dsg.clone(),
+                classes: Default::default(),
+                excluded: Default::default(),
+            };
+            matches!(evaluate(&g2, st, fast, cc, use_cc), Outcome::Fail(f2) if f2.signature == sig)
+        };
+        if pred(&g.design, &stim) {
+            let (md, ms) = minimize::minimize(&g.design, &stim, &mut pred, 1500);
+            let g2 = Generated {
+                design: md,
+                classes: Default::default(),
+                excluded: Default::default(),
+            };
+            return evaluate(&g2, &ms, fast, cc, use_cc);
+        }
+    }
+    out
+}
+
+/// Run every engine on the design and compare (the verdict of one case).
+pub fn evaluate(g: &Generated, stim: &Stimulus, fast: &[Config], cc: &[Config], use_cc: bool) -> Outcome {
+    let design = &g.design;
+    let stim = stim.clone();
+    let text = print_design(design);
+    let a = match Analyzed::new(&text) {
+        Ok(a) => a,
+        Err(r) => {
+            let code = r.errors.first().map(|e| e.0.clone()).unwrap_or_default();
+            return Outcome::skip(format!("generated design rejected by the analyzer ({}:{code})", r.stage));
+        }
+    };
+    let mut configs: Vec<Config> = fast.to_vec();
+    if use_cc {
+        configs.extend(cc.iter().cloned());
+    }
+    let runs: Vec<(String, bool, Result<Trace, String>)> = configs.iter().map(|c| (config_label(c), c.use_4state, run_engine(&a, c, &stim))).collect();
+
+    // a design no engine can build is outside the simulatable subset
+    if runs.iter().all(|(_, _, r)| matches!(r, Err(e) if e.starts_with("build_ir:"))) {
+        let msg = runs[0].2.as_ref().err().cloned().unwrap_or_default();
+        let msg: String = msg.chars().filter(|c| !c.is_ascii_digit()).take(60).collect();
+        return Outcome::skip(format!("not simulatable ({msg})"));
+    }
+    // engines that fail to build / panic while others run: signature by message
+    let errs: Vec<(&String, &String)> = runs.iter().filter_map(|(l, _, r)| r.as_ref().err().map(|e| (l, e))).collect();
+    if !errs.is_empty() {
+        let mut fams: BTreeSet<String> = BTreeSet::new();
+        for (l, _) in &errs {
+            fams.insert(family(l));
+        }
+        let first: String = errs[0].1.lines().next().unwrap_or("").chars().filter(|c| !c.is_ascii_digit()).take(70).collect();
+        return Outcome::fail(
+            format!("engine-error:{first}/{}", fams.into_iter().collect::<Vec<_>>().join("+")),
+            format!("some engines cannot run the design:\n{}\n{text}", errs.iter().map(|(l, e)| format!("  {l}: {}", e.lines().next().unwrap_or(""))).collect::<Vec<_>>().join("\n")),
+            json!({"veryl": text, "top": "Top", "root": format!("engine-error:{first}"), "stimulus": stim_json(&stim), "expected": null}),
+        );
+    }
+
+    // ---- the differential verdict
+    let mut deviants: BTreeMap<String, String> = BTreeMap::new(); // label -> what
+    let base = runs.iter().find(|(_, four, r)| !four && r.is_ok());
+    let mut x_runs = 0;
+    for (label, _, r) in &runs {
+        if let Err(e) = r {
+            deviants.insert(label.clone(), format!("failed to run: {}", e.lines().next().unwrap_or("")));
+        }
+    }
+    if let Some((bl, _, Ok(bt))) = base {
+        for (label, four, r) in &runs {
+            let Ok(t) = r else { continue };
+            if label == bl {
+                continue;
+            }
+            if *four && t.any_xz {
+                x_runs += 1;
+                continue;
+            }
+            if let Some((si, oi)) = first_diff(bt, t) {
+                deviants.insert(
+                    label.clone(),
+                    format!(
+                        "output {} after step {si}: {label} = {:x} (xz {:x}), {bl} = {:x}",
+                        stim.outputs[oi].name, t.steps[si][oi].value, t.steps[si][oi].xz, bt.steps[si][oi].value
+                    ),
+                );
+            } else if t.display != bt.display {
+                deviants.insert(label.clone(), format!("$display text differs: {label} {:?} vs {bl} {:?}", t.display, bt.display));
+            }
+        }
+    }
+    // 4-state runs with X: among themselves
+    let xs: Vec<&(String, bool, Result<Trace, String>)> = runs.iter().filter(|(_, four, r)| *four && r.as_ref().map(|t| t.any_xz).unwrap_or(false)).collect();
+    if let Some((xl, _, Ok(xt))) = xs.first() {
+        for (label, _, r) in xs.iter().skip(1) {
+            let Ok(t) = r else { continue };
+            if let Some((si, oi)) = first_diff(xt, t) {
+                deviants.insert(
+                    label.clone(),
+                    format!(
+                        "(4-state, X present) output {} after step {si}: {label} = {:x}/xz {:x}, {xl} = {:x}/xz {:x}",
+                        stim.outputs[oi].name, t.steps[si][oi].value, t.steps[si][oi].xz, xt.steps[si][oi].value, xt.steps[si][oi].xz
+                    ),
+                );
+            } else if t.display != xt.display {
+                deviants.insert(label.clone(), format!("(4-state, X present) $display text differs: {label} {:?} vs {xl} {:?}", t.display, xt.display));
+            }
+        }
+    }
+
+    if deviants.is_empty() {
+        let jit = runs.iter().any(|(l, _, r)| l.starts_with("jit") && r.as_ref().map(|t| t.jit_stats.0 > 0).unwrap_or(false));
+        let changes = base
+            .and_then(|(_, _, r)| r.as_ref().ok())
+            .map(|t| (0..stim.outputs.len()).any(|oi| t.steps.iter().any(|row| row[oi] != t.steps[0][oi])))
+            .unwrap_or(false);
+        let mut classes: Vec<String> = g.classes.iter().cloned().collect();
+        if use_cc {
+            classes.push("engine:cc".into());
+        }
+        if x_runs > 0 {
+            classes.push("engine:4state_run_with_x".into());
+        }
+        if design.top().has_ff() {
+            classes.push("design:sequential".into());
+        }
+        if design.modules.len() > 1 {
+            classes.push("design:hierarchy".into());
+        }
+        for (k, n) in &g.excluded {
+            if *n > 0 {
+                classes.push(format!("excluded:{k}"));
+            }
+        }
+        if base.map(|(_, _, r)| r.as_ref().map(|t| !t.display.is_empty()).unwrap_or(false)).unwrap_or(false) {
+            classes.push("display:text_compared".into());
+        }
+        return Outcome::pass(hash_str(&format!("{text}{}", stim_json(&stim))), jit && changes, classes, format!("{text}// stimulus: {}", stim_json(&stim)));
+    }
+
+    // ---- who is wrong, and where: the reference's opinion
+    let rt = reference_trace(design, &stim);
+    let mut wrong: BTreeSet<String> = BTreeSet::new();
+    let mut ref_lines = vec![];
+    for (label, four, r) in &runs {
+        match r {
+            Err(_) => {
+                wrong.insert(label.clone());
+            }
+            Ok(t) => {
+                if *four && t.any_xz {
+                    continue;
+                }
+                'o: for (si, (row, rrow)) in t.steps.iter().zip(&rt.steps).enumerate() {
+                    for (oi, (s, rv)) in row.iter().zip(rrow).enumerate() {
+                        if !rv.x && s.value != rv.v {
+                            wrong.insert(label.clone());
+                            ref_lines.push(format!("reference: {label} is wrong on output {} after step {si}: {:x}, IEEE 1800 value {:x}", stim.outputs[oi].name, s.value, rv.v));
+                            break 'o;
+                        }
+                    }
+                }
+            }
+        }
+    }
+    let in_x_domain = wrong.is_empty();
+    if in_x_domain {
+        // the engines differ only where SystemVerilog gives X (the reference is "unknown" there)
+        wrong = deviants.keys().cloned().collect();
+    }
+    // localise with the first wrong engine that runs
+    // (variables nothing reads may be optimised away by an engine and then
+    // read as 0: only outputs and variables that are read somewhere count)
+    let mut read: BTreeSet<(usize, DeclId)> = BTreeSet::new();
+    for (mi, m) in design.modules.iter().enumerate() {
+        for it in &m.items {
+            let mut ex = vec![];
+            item_exprs(m, it, &mut ex);
+            for (e, _) in ex {
+                findings::walk(m, e, 1, &mut |_, n| {
+                    if let Expr::Ref(r) = n.e {
+                        read.insert((mi, r.decl));
+                    }
+                });
+            }
+        }
+    }
+    let vars: Vec<DeepVar> = deep_vars(design)
+        .into_iter()
+        .filter(|v| design.modules[v.module].decls[v.decl].kind == DeclKind::Output || read.contains(&(v.module, v.decl)))
+        .collect();
+    let rd = reference_deep(design, &stim, &vars);
+    let paths: Vec<String> = vars.iter().map(|v| v.path.clone()).collect();
+    let mut culprit: Option<(usize, usize, String)> = None;
+    for (label, four, r) in &runs {
+        if !wrong.contains(label) || r.is_err() || *four {
+            continue;
+        }
+        let cfgc = configs.iter().find(|c| config_label(c) == *label).unwrap();
+        let deep = match std::panic::catch_unwind(std::panic::AssertUnwindSafe(|| run_deep(&a, "Top", cfgc, &stim, &paths))) {
+            Ok(Ok(x)) => x,
+            _ => continue,
+        };
+        'steps: for (si, (row, rrow)) in deep.iter().zip(&rd).enumerate() {
+            for (vi, (s, rv)) in row.iter().zip(rrow).enumerate() {
+                let Some(s) = s else { continue };
+                if rv.x {
+                    continue;
+                }
+                // arrays: only element 0 is visible; structs etc. are plain vectors
+                if s.value != rv.v {
+                    let v = &vars[vi];
+                    if let Some(it) = v.item {
+                        culprit = Some((v.module, it, format!("first wrong variable ({label}): {} after step {si}: {:x}, reference {:x}", v.path, s.value, rv.v)));
+                    }
+                    break 'steps;
+                }
+            }
+        }
+        if culprit.is_some() {
+            break;
+        }
+    }
+    let mut fams: BTreeSet<String> = BTreeSet::new();
+    for l in &wrong {
+        let f = family(l);
+        let failed = runs.iter().any(|(rl, _, r)| rl == l && r.is_err());
+        fams.insert(if failed { format!("{f}!error") } else { f });
+    }
+    let engines = fams.into_iter().collect::<Vec<_>>().join("+");
+    let root = match (&culprit, in_x_domain) {
+        (Some((m, it, _)), _) => classify_item(design, *m, *it),
+        (None, true) => "engines-differ-where-sv-gives-x".to_string(),
+        (None, false) => "unlocalized".to_string(),
+    };
+    let sig = format!("{root}/{engines}");
+    let culprit_text = culprit.as_ref().map(|c| c.2.clone()).unwrap_or_else(|| "no internal variable localises the difference".into());
+    let msg = format!(
+        "engines disagree:\n{}\n{}\n{culprit_text}\nreference display: {:?}\n{text}",
+        deviants.iter().map(|(k, v)| format!("  {k}: {v}")).collect::<Vec<_>>().join("\n"),
+        ref_lines.join("\n"),
+        rt.display,
+    );
+    Outcome::fail(
+        sig,
+        msg,
+        json!({"veryl": text, "top": "Top", "root": root, "stimulus": stim_json(&stim),
+               "expected": rt.steps.iter().map(|r| r.iter().map(|v| if v.x { None } else { Some(format!("{:x}", v.v)) }).collect::<Vec<_>>()).collect::<Vec<_>>(),
+               "deviating": deviants, "reference_says_wrong": wrong, "culprit": culprit_text}),
+    )
+}
+
+fn discover(o: Outcome) -> Outcome {
+    static SEEN: std::sync::Mutex<BTreeMap<String, u32>> = std::sync::Mutex::new(BTreeMap::new());
+    // development aid: only failures whose signature contains this text count
+    if let Ok(only) = std::env::var("C02_ONLY") {
+        return match o {
+            Outcome::Fail(f) if !f.signature.contains(&only) => Outcome::skip("other signature (C02_ONLY)"),
+            o => o,
+        };
+    }
+    let _ = &SEEN;
+    crate::c18::discover("C02", o)
+}
+
+pub fn run(ctx: &Ctx) {
+    let (fast, cc) = engine_configs();
+    ctx.note("engines", json!(fast.iter().chain(cc.iter()).map(config_label).collect::<Vec<_>>()));
+    ctx.run_payloads("recorded", |p| {
+        std::thread::scope(|s| {
+            std::thread::Builder::new()
+                .stack_size(16 << 20)
+                .spawn_scoped(s, || replay_recorded(p, &fast, &cc))
+                .expect("spawn")
+                .join()
+                .unwrap_or_else(|_| Outcome::fail("panic:recorded", "the replay panicked", p.clone()))
+        })
+    });
+    let n = std::env::var("C02_CASES").ok().and_then(|s| s.parse::<usize>().ok()).unwrap_or(ctx.scale(600, 20_000));
+    let mut cc_cfg = CaseCfg::cases(n).choices(8000);
+    if std::env::var("VDESIGN_MINIMIZE").is_ok() {
+        cc_cfg = cc_cfg.shrink_iters(0).timeout_s(3000);
+    }
+    ctx.run("designs", cc_cfg, |d| discover(one_case(d, &fast, &cc)));
+    ctx.assume("4-state engines are compared with the 2-state ones only when the 4-state run shows no X/Z on any variable of the hierarchy");
+    ctx.assume("the reference evaluator (vdesign::eval) is used for the failure report and the root-cause signature only, not for the verdict");
+    ctx.finish(
+        "exploration",
+        "generated designs (children with parameter overrides, let/assign/always_comb with if/case/switch/for, always_ff with reset, functions, structs, arrays, widths 1..300, signed values, $display on 1/4) x stimulus of 8-15 cycles after a reset window, under every Config::all() engine (cc on 1/5); non-trivial = compiled by the JIT (jit_stats > 0) and some output changes over the trace; distinct by text + stimulus",
+    );
 }
